@@ -327,3 +327,54 @@ def is_result_of(x, bb, depth=0):
         if is_call(x, *RESULT_ADAPTERS) and x[3]:
             return is_result_of(x[3][0], bb, depth + 1)
     return False
+
+
+@cached
+def connack_property_arms(f):
+    """For the handshake's CONNACK property loop: variant -> dict(stores=[(upvar name, value term)], unconditional=bool,
+    span).  `unconditional` means every path through the arm that does not leave with an error performs every store of
+    the arm (a honoured CONNACK property is not silently skipped)."""
+    from ..core import chain as _chain
+    call, hb, hcode = handshake(f)
+    out = {}
+    for cb in f.children(hcode):
+        if cb.kind != "closure":
+            continue
+        for bb in sorted(cb.switches):
+            si = cb.switch_info(bb)
+            if si["enum"] != "properties::Property":
+                continue
+            for v, tgt in si["edges"].items():
+                others = [t for k, t in si["edges"].items() if k != v] + [si["otherwise"]]
+                arm = cb.reach([tgt], avoid=[bb]) - cb.reach([o for o in others if o != tgt], avoid=[bb])
+                stores = []
+                sblocks = []
+                for (sb, j, dst, rv, s) in cb.stores():
+                    if sb in arm:
+                        t = cb.place_term(dst)
+                        if t[0] == "deref" and t[1][0] == "param":
+                            stores.append((t[1][1].replace("_ref__", ""), cb.rvalue_term(rv)))
+                            sblocks.append(sb)
+                # paths from the arm entry back to the loop head (the switch) or to a normal Ok return must pass the stores
+                unconditional = bool(sblocks)
+                if sblocks:
+                    from .. import paths as _paths
+                    leaves = _paths.explore(cb, tgt, lambda t: False, lambda b, x: x in sblocks,
+                                            stop_pred=lambda b, x, bb=bb: x == bb)
+                    for lf in leaves:
+                        if lf["kind"] == "stop" and not lf["marked"]:
+                            unconditional = False
+                        if lf["kind"] == "return" and not lf["marked"]:
+                            # leaving with an error is fine
+                            val = None
+                            for pb in lf["path"]:
+                                for st in cb.blocks[pb]["stmts"]:
+                                    if st["k"] == "assign" and st["dst"]["l"] == 0:
+                                        val = cb.rvalue_term(st["rv"])
+                                c = cb.calls.get(pb)
+                                if c is not None and c.dst["l"] == 0:
+                                    val = cb.call_term(pb)
+                            if val is not None and val[0] == "agg" and val[3] == "Ok":
+                                unconditional = False
+                out[v] = {"stores": stores, "unconditional": unconditional, "span": cb.line(tgt), "body": cb}
+    return out
